@@ -1,3 +1,253 @@
 package main
 
-func factGenFiles() []genFile { return nil }
+import (
+	"fmt"
+	"go/ast"
+	"go/token"
+	"sort"
+	"strings"
+)
+
+// factGenFiles: fact extractors. Each pattern-matches one AST shape and emits a table.
+func factGenFiles() []genFile {
+	return []genFile{
+		{"AsmFacts", genAsmFacts},
+		{"CborConsts", genCborConsts},
+	}
+}
+
+// ---------------------------------------------------------------------------------------------
+// basicnode assembler state tables (C01, C11, C12)
+
+type methodFacts struct {
+	recv, name string
+	guard      string   // state constant required on entry ("" = none)
+	sets       []string // state constants assigned, in source order
+	writes     []string // fields of the work-in-progress node written (t, m, x, w = whole header copy)
+	nilsBack   bool     // the back-pointer to the parent assembler is nil-ed
+	line       int
+}
+
+func selectorPath(e ast.Expr) string {
+	switch x := e.(type) {
+	case *ast.Ident:
+		return x.Name
+	case *ast.SelectorExpr:
+		return selectorPath(x.X) + "." + x.Sel.Name
+	case *ast.IndexExpr:
+		return selectorPath(x.X) + "[]"
+	case *ast.StarExpr:
+		return "*" + selectorPath(x.X)
+	case *ast.ParenExpr:
+		return selectorPath(x.X)
+	}
+	return "?"
+}
+
+func extractMethodFacts(s *source, recvTypes map[string]bool) []methodFacts {
+	var out []methodFacts
+	for _, d := range s.file.Decls {
+		fd, ok := d.(*ast.FuncDecl)
+		if !ok || fd.Recv == nil || len(fd.Recv.List) != 1 || fd.Body == nil {
+			continue
+		}
+		rt := fd.Recv.List[0].Type
+		if st, ok := rt.(*ast.StarExpr); ok {
+			rt = st.X
+		}
+		ri, ok := rt.(*ast.Ident)
+		if !ok || !recvTypes[ri.Name] {
+			continue
+		}
+		mf := methodFacts{recv: ri.Name, name: fd.Name.Name, line: s.fset.Position(fd.Pos()).Line}
+		// guard: a top-level `if <x>.state != C { panic(...) }`
+		for _, st := range fd.Body.List {
+			is, ok := st.(*ast.IfStmt)
+			if !ok {
+				continue
+			}
+			be, ok := is.Cond.(*ast.BinaryExpr)
+			if !ok || be.Op != token.NEQ || !strings.HasSuffix(selectorPath(be.X), ".state") {
+				continue
+			}
+			panics := false
+			for _, b := range is.Body.List {
+				if es, ok := b.(*ast.ExprStmt); ok {
+					if ce, ok := es.X.(*ast.CallExpr); ok {
+						if id, ok := ce.Fun.(*ast.Ident); ok && id.Name == "panic" {
+							panics = true
+						}
+					}
+				}
+			}
+			if panics {
+				if mf.guard != "" {
+					panic(failure{fmt.Sprintf("%s:%d: %s.%s has two state guards", s.path, mf.line, mf.recv, mf.name)})
+				}
+				mf.guard = selectorPath(be.Y)
+			}
+		}
+		wr := map[string]bool{}
+		ast.Inspect(fd.Body, func(n ast.Node) bool {
+			as, ok := n.(*ast.AssignStmt)
+			if !ok {
+				return true
+			}
+			for i, l := range as.Lhs {
+				p := selectorPath(l)
+				switch {
+				case strings.HasSuffix(p, ".state"):
+					if i < len(as.Rhs) {
+						mf.sets = append(mf.sets, selectorPath(as.Rhs[i]))
+					}
+				case strings.Contains(p, ".w.t"):
+					wr["t"] = true
+				case strings.Contains(p, ".w.m"):
+					wr["m"] = true
+				case strings.Contains(p, ".w.x"):
+					wr["x"] = true
+				case strings.HasPrefix(p, "*") && strings.HasSuffix(p, ".w"):
+					wr["w"] = true
+				case strings.HasSuffix(p, ".ma") || strings.HasSuffix(p, ".la"):
+					if i < len(as.Rhs) {
+						if id, ok := as.Rhs[i].(*ast.Ident); ok && id.Name == "nil" {
+							mf.nilsBack = true
+						}
+					}
+				}
+			}
+			return true
+		})
+		for k := range wr {
+			mf.writes = append(mf.writes, k)
+		}
+		sort.Strings(mf.writes)
+		if mf.guard != "" || len(mf.sets) > 0 || len(mf.writes) > 0 || mf.nilsBack {
+			out = append(out, mf)
+		}
+	}
+	sort.Slice(out, func(i, j int) bool {
+		if out[i].recv != out[j].recv {
+			return out[i].recv < out[j].recv
+		}
+		return out[i].name < out[j].name
+	})
+	return out
+}
+
+func leanStrList(xs []string) string {
+	q := make([]string, len(xs))
+	for i, x := range xs {
+		q[i] = fmt.Sprintf("%q", x)
+	}
+	return "[" + strings.Join(q, ", ") + "]"
+}
+
+func genAsmFacts(repo string) string {
+	var sb strings.Builder
+	sb.WriteString("structure MethodFacts where\n  recv : String\n  name : String\n  guard : String\n  sets : List String\n  writes : List String\n  nilsBack : Bool\n  deriving DecidableEq, Repr\n\n")
+	emit := func(leanName, rel string, recv map[string]bool) {
+		s := load(repo, rel)
+		facts := extractMethodFacts(s, recv)
+		if len(facts) == 0 {
+			panic(failure{rel + ": no assembler methods found"})
+		}
+		fmt.Fprintf(&sb, "/-- generated from %s: per method, the state guard (panic otherwise), the states assigned, the fields of the node under construction that are written, whether the back-pointer is dropped -/\ndef %s : List MethodFacts := [\n", rel, leanName)
+		for i, f := range facts {
+			comma := ","
+			if i == len(facts)-1 {
+				comma = ""
+			}
+			fmt.Fprintf(&sb, "  { recv := %q, name := %q, guard := %q, sets := %s, writes := %s, nilsBack := %v }%s  -- %s:%d\n",
+				f.recv, f.name, f.guard, leanStrList(f.sets), leanStrList(f.writes), f.nilsBack, comma, rel, f.line)
+		}
+		sb.WriteString("]\n\n")
+	}
+	emit("maFacts_src", "node/basicnode/map.go", map[string]bool{"plainMap__Assembler": true, "plainMap__KeyAssembler": true, "plainMap__ValueAssembler": true,
+		"plainMap__ValueAssemblerMap": true, "plainMap__ValueAssemblerList": true, "plainMap__Builder": true})
+	emit("laFacts_src", "node/basicnode/list.go", map[string]bool{"plainList__Assembler": true, "plainList__ValueAssembler": true,
+		"plainList__ValueAssemblerMap": true, "plainList__ValueAssemblerList": true, "plainList__Builder": true})
+	return sb.String()
+}
+
+// ---------------------------------------------------------------------------------------------
+// dag-cbor decoder constants and option wiring (C03, C10)
+
+func genCborConsts(repo string) string {
+	s := load(repo, "codec/dagcbor/unmarshal.go")
+	consts := s.intConsts()
+	var sb strings.Builder
+	for _, name := range []string{"mapEntryCost", "listEntryCost", "defaultAllocationBudget", "defaultMaxCollectionPrealloc", "defaultMaxDepth"} {
+		v, ok := consts[name]
+		if !ok {
+			panic(failure{"codec/dagcbor/unmarshal.go: constant " + name + " not found"})
+		}
+		fmt.Fprintf(&sb, "/-- generated from codec/dagcbor/unmarshal.go const %s -/\ndef %s_src : Int := %s\n\n", name, name, v)
+	}
+	// refmtDecodeOptions: which tokenizer flags are set unconditionally, which only when !RelaxedDecode
+	fd := s.funcDecl("DecodeOptions.refmtDecodeOptions")
+	var always, strictOnly []string
+	var walk func(list []ast.Stmt, inStrict bool)
+	walk = func(list []ast.Stmt, inStrict bool) {
+		for _, st := range list {
+			switch x := st.(type) {
+			case *ast.AssignStmt:
+				for i, l := range x.Lhs {
+					if cl, ok := x.Rhs[i].(*ast.CompositeLit); ok {
+						for _, el := range cl.Elts {
+							if kv, ok := el.(*ast.KeyValueExpr); ok {
+								if id, ok := kv.Value.(*ast.Ident); ok && id.Name == "true" {
+									always = append(always, selectorPath(kv.Key))
+								}
+							}
+						}
+						continue
+					}
+					if id, ok := x.Rhs[i].(*ast.Ident); ok && id.Name == "true" {
+						p := selectorPath(l)
+						p = p[strings.LastIndex(p, ".")+1:]
+						if inStrict {
+							strictOnly = append(strictOnly, p)
+						} else {
+							always = append(always, p)
+						}
+					}
+				}
+			case *ast.IfStmt:
+				// expect `if !cfg.RelaxedDecode { ... }`
+				ue, ok := x.Cond.(*ast.UnaryExpr)
+				if !ok || ue.Op != token.NOT || !strings.HasSuffix(selectorPath(ue.X), ".RelaxedDecode") || x.Else != nil {
+					panic(failure{"codec/dagcbor/unmarshal.go refmtDecodeOptions: unexpected condition shape"})
+				}
+				walk(x.Body.List, true)
+			case *ast.ReturnStmt:
+			default:
+				panic(failure{fmt.Sprintf("codec/dagcbor/unmarshal.go refmtDecodeOptions: unexpected statement %T", st)})
+			}
+		}
+	}
+	walk(fd.Body.List, false)
+	sort.Strings(always)
+	sort.Strings(strictOnly)
+	fmt.Fprintf(&sb, "/-- generated from `refmtDecodeOptions`: tokenizer flags set in every mode -/\ndef refmtFlagsAlways_src : List String := %s\n\n", leanStrList(always))
+	fmt.Fprintf(&sb, "/-- generated from `refmtDecodeOptions`: tokenizer flags set only when RelaxedDecode is false -/\ndef refmtFlagsStrictOnly_src : List String := %s\n\n", leanStrList(strictOnly))
+	// registered codec option literals (multicodec.go)
+	m := load(repo, "codec/dagcbor/multicodec.go")
+	for _, fn := range []string{"Decode", "Encode"} {
+		fd := m.funcDecl(fn)
+		var opts []string
+		ast.Inspect(fd.Body, func(n ast.Node) bool {
+			if cl, ok := n.(*ast.CompositeLit); ok {
+				for _, el := range cl.Elts {
+					if kv, ok := el.(*ast.KeyValueExpr); ok {
+						opts = append(opts, selectorPath(kv.Key)+"="+selectorPath(kv.Value))
+					}
+				}
+			}
+			return true
+		})
+		sort.Strings(opts)
+		fmt.Fprintf(&sb, "/-- generated from codec/dagcbor/multicodec.go `%s`: option literal of the registered codec -/\ndef registered%sOptions_src : List String := %s\n\n", fn, fn, leanStrList(opts))
+	}
+	return sb.String()
+}
